@@ -150,6 +150,11 @@ int main(int argc, char** argv) {
     resolvo::Vector<resolvo::SolvableId> soft;
     std::string line;
     uint64_t solved = 0, callbacks = 0;
+    // the result vector is reused across problems in three ways: fresh, still owning the storage
+    // of the previous solution, and sharing that storage with a copy the caller kept
+    resolvo::Vector<resolvo::SolvableId> result;
+    resolvo::Vector<resolvo::SolvableId> kept;
+    std::vector<uint32_t> kept_shadow;
     while (std::getline(in, line)) {
         std::stringstream ls(line);
         ls >> tok;
@@ -245,12 +250,32 @@ int main(int argc, char** argv) {
         } else if (tok == "#") {
             std::string seed;
             ls >> seed;
-            resolvo::Vector<resolvo::SolvableId> result;
+            switch (solved % 3) {
+                case 0:
+                    result = resolvo::Vector<resolvo::SolvableId>();
+                    break;
+                case 1:
+                    break;  // keeps whatever the previous solve stored
+                case 2:
+                    kept = result;  // shares the storage
+                    kept_shadow.clear();
+                    for (auto s : kept) kept_shadow.push_back(s.id);
+                    break;
+            }
             // a shared copy of the inputs must survive the call untouched
             auto reqs_copy = reqs;
             resolvo::Problem problem = {reqs, cons, soft};
             auto err = resolvo::solve(*db, problem, result);
             solved++;
+            {
+                // the copy kept by the caller must be unaffected by the solve that overwrote `result`
+                bool same = kept.size() == kept_shadow.size();
+                for (size_t k = 0; same && k < kept_shadow.size(); ++k) same = kept.at(k).id == kept_shadow[k];
+                if (!same) {
+                    std::cout << seed << " CORRUPTED a copy of an earlier result changed\n";
+                    continue;
+                }
+            }
             if (!(reqs_copy == reqs)) {
                 std::cout << seed << " CORRUPTED problem requirements changed by solve\n";
                 continue;
